@@ -910,4 +910,3 @@ func TestC18BuildPath(t *testing.T) {
 		Run:       runC18Path,
 	})
 }
-
